@@ -124,6 +124,12 @@ func (r *Run) classify(e *Exch, by map[int]*OResp) *cls {
 	if c.B == nil && c.H != nil && !c.H.Is304 && len(c.H.Body) == 0 {
 		c.B = c.H // bodiless representation: the header provenance identifies it
 	}
+	if c.B == nil && c.H != nil && !e.BodyRead {
+		// the caller did not read the body: the entry this exchange read from the store identifies it
+		if b := r.storedReadIn(e, by); b != nil && !b.Is304 && (c.H.Is304 || c.H == b) {
+			c.B = b
+		}
+	}
 	if c.H == nil && c.B != nil {
 		c.H = c.B
 	}
@@ -160,11 +166,10 @@ func (r *Run) classify(e *Exch, by map[int]*OResp) *cls {
 					if av := c.B.Header.Values("Age"); len(av) > 0 {
 						cands = append(cands, av)
 					}
-					for _, o := range r.OResps {
-						if o.Is304 && o.Res == c.B.Res && o.SeqResp > c.B.SeqResp && o.SeqResp < hv.SeqResp {
-							if av := o.Header.Values("Age"); len(av) > 0 {
-								cands = append(cands, av)
-							}
+					_, _, vc := r.validationChain(c.B, hv.SeqResp)
+					for _, o := range vc {
+						if av := o.Header.Values("Age"); len(av) > 0 {
+							cands = append(cands, av)
 						}
 					}
 				}
@@ -614,10 +619,24 @@ func judgeVary(r *Run, j *Judged, c *cls) {
 		return
 	}
 	j.count("C04", "wrong-variant")
+	// the selecting values must equal those of the request that obtained the header provenance (the stored
+	// response itself, or the 304 that last validated it) and, for the fields B itself nominated, B's request
+	ref := c.B
+	if c.H != nil {
+		ref = c.H
+	}
 	for _, f := range fields {
+		a, b := meaningOf(f, e.Req.Header.Values(f)), meaningOf(f, ref.Req.Header.Values(f))
+		if a != b {
+			j.fail("C04", "wrong-variant", e, "", "stored response sid=%d (header provenance sid=%d) was obtained with %s=%q but is returned for a request with %s=%q (Vary: %s)", c.B.SID, ref.SID, f, ref.Req.Header.Values(f), f, e.Req.Header.Values(f), vh.Get("Vary"))
+			return
+		}
+	}
+	own, _ := varyFields(c.B.Header)
+	for _, f := range own {
 		a, b := meaningOf(f, e.Req.Header.Values(f)), meaningOf(f, c.B.Req.Header.Values(f))
 		if a != b {
-			j.fail("C04", "wrong-variant", e, "", "stored response sid=%d was obtained with %s=%q but is returned for a request with %s=%q (Vary: %s)", c.B.SID, f, c.B.Req.Header.Values(f), f, e.Req.Header.Values(f), vh.Get("Vary"))
+			j.fail("C04", "wrong-variant", e, "", "stored response sid=%d was obtained with %s=%q but is returned for a request with %s=%q (its own Vary: %s)", c.B.SID, f, c.B.Req.Header.Values(f), f, e.Req.Header.Values(f), c.B.Header.Get("Vary"))
 			return
 		}
 	}
@@ -638,10 +657,9 @@ func judgeFidelity(r *Run, j *Judged, c *cls) {
 	// header provenance chain: the 304s that may have freshened B up to (and including) H
 	var chain []*OResp
 	if c.H != nil && c.H != c.B {
-		for _, o := range r.OResps {
-			if o.Is304 && o.Res == c.B.Res && o.SeqResp > c.B.SeqResp && o.SeqResp <= c.H.SeqResp {
-				chain = append(chain, o)
-			}
+		_, _, chain = r.validationChain(c.B, c.H.SeqResp+1)
+		if len(chain) == 0 || chain[len(chain)-1] != c.H {
+			chain = append(chain, c.H)
 		}
 	}
 	ignore := map[string]bool{"Age": true, "X-Httpcache-Status": true, "X-From-Cache": true, "Content-Length": true}
@@ -931,6 +949,12 @@ func judgeSIE(r *Run, j *Judged, c *cls, by map[int]*OResp) {
 // (except Content-Length and hop-by-hop fields); `last` is the response whose exchange defines the
 // request/response times (the last such 304, or B).
 func (r *Run) effectiveStored(B *OResp, before uint64) (hdr http.Header, last *OResp) {
+	hdr, last, _ = r.validationChain(B, before)
+	return
+}
+
+// validationChain: the 304s (in order) whose requests carried B's validators as they stood then.
+func (r *Run) validationChain(B *OResp, before uint64) (hdr http.Header, last *OResp, chain []*OResp) {
 	hdr, last = B.Header.Clone(), B
 	et, lm := B.Header.Get("Etag"), B.Header.Get("Last-Modified")
 	for _, o := range r.OResps {
@@ -941,6 +965,7 @@ func (r *Run) effectiveStored(B *OResp, before uint64) (hdr http.Header, last *O
 		if !((et != "" && inm == et) || (et == "" && lm != "" && ims == lm)) {
 			continue
 		}
+		chain = append(chain, o)
 		hop := canonHopByHop(o.Header)
 		for k, v := range o.Header {
 			if hop[k] || k == "Content-Length" {
@@ -957,7 +982,7 @@ func (r *Run) effectiveStored(B *OResp, before uint64) (hdr http.Header, last *O
 			lm = lm2
 		}
 	}
-	return hdr, last
+	return hdr, last, chain
 }
 
 func firstNonEmpty(a, b string) string {
